@@ -63,6 +63,11 @@ var tagChoices = []tagChoice{
 	{`json:"j,omitempty" gerror:"_,print"`, true, "_", []string{"print"}},
 	{`gerror:"_,print,print,clone"`, true, "_", []string{"print", "print", "clone"}},
 	{`json:"only"`, false, "", nil},
+	{`gerror:"-,print,clone"`, true, "-", []string{"print", "clone"}},
+	{`gerror:"-,clone"`, true, "-", []string{"clone"}},
+	{`gerror:"-x,print"`, true, "-x", []string{"print"}},
+	{`gerror:".,print,clone"`, true, ".", []string{"print", "clone"}},
+	{`gerror:"-"`, true, "-", nil},
 	{`gerror:"pct%d,print"`, true, "pct%d", []string{"print"}},
 	{`gerror:"50%,print,clone"`, true, "50%", []string{"print", "clone"}},
 }
@@ -157,6 +162,17 @@ func fixedTypes() []typ {
 			f("Limit", "int", "100", `gerror:"_,print"`, true, "_", "print"),
 			f("Account", "string", `"acct-42"`, `gerror:"_,clone"`, true, "_", "clone"),
 			f("Burst", "bool", "true", `gerror:"_,print,clone"`, true, "_", "print", "clone")}},
+		{Name: "R1", Fields: []field{ // rename values that are punctuation are print names like any other
+			f("Dash", "string", `"d"`, `gerror:"-,print,clone"`, true, "-", "print", "clone"),
+			f("DashC", "int", "5", `gerror:"-,clone"`, true, "-", "clone"),
+			f("DashP", "bool", "true", `gerror:"-,print"`, true, "-", "print"),
+			f("DashX", "int", "6", `gerror:"-x,print"`, true, "-x", "print"),
+			f("Dot", "string", `"p"`, `gerror:".,print,clone"`, true, ".", "print", "clone"),
+			f("Under", "string", `"u"`, `gerror:"_,print,clone"`, true, "_", "print", "clone")}},
+		{Name: "R2", Skip: true, Fields: []field{ // a bare name, also "-", selects nothing
+			f("Bare", "string", `"b"`, `gerror:"-"`, true, "-"),
+			f("Spaced", "int", "7", `gerror:"two words,print,clone"`, true, "two words", "print", "clone"),
+			f("Pct", "string", `"v"`, `gerror:"100%,clone,print"`, true, "100%", "clone", "print")}},
 		{Name: "G3", Fields: []field{ // a print name is text, not a format
 			f("A", "int", "3", `gerror:"pct%d,print,clone"`, true, "pct%d", "print", "clone"),
 			f("B", "string", `"bee"`, `gerror:"50%,print,clone"`, true, "50%", "print", "clone")}},
